@@ -81,6 +81,8 @@ class shared_ptr: public ::std::shared_ptr<T> {
     }
 
   public:
+    using base::base;  // every other constructor of ::std::shared_ptr (pointer + deleter [+ allocator], aliasing, from
+                       // weak_ptr / unique_ptr ...): silent, as the ones spelled out below
     constexpr shared_ptr() noexcept = default;
     constexpr shared_ptr(::std::nullptr_t) noexcept {}  // NOLINT
     template<class U, class = ::std::enable_if_t<::std::is_convertible_v<U*, T*>>>
